@@ -185,6 +185,7 @@ type Gen struct {
 	// observations
 	OpPairs map[string]bool
 	Shapes  map[string]int
+	nest    int // syntactic block depth of the statement being generated (the machine may be dead)
 }
 
 func NewGen(r *rand.Rand, cfg GenCfg) *Gen {
@@ -265,7 +266,7 @@ func (g *Gen) identOfKind(want Kind) (string, bool) {
 			cands = append(cands, n)
 		}
 	}
-	if g.M.Depth() > 0 {
+	if g.nest > 0 {
 		for _, n := range g.M.FieldsVisible() {
 			if _, isVar := g.M.LookupVar(n); isVar {
 				continue
@@ -293,7 +294,7 @@ func (g *Gen) maybeParen(e *Expr) *Expr {
 
 func (g *Gen) assignTarget() (string, bool) {
 	vis := g.M.VisibleVars()
-	if g.M.Depth() > 0 {
+	if g.nest > 0 {
 		// inside a block any name is assignable (variable or field)
 		if len(vis) == 0 || g.R.Intn(2) == 0 {
 			return g.pick(g.Cfg.Names), true
@@ -393,7 +394,7 @@ func (g *Gen) wild(d int) *Expr {
 	r := g.R
 	if d <= 0 || r.Intn(4) == 0 {
 		if r.Intn(4) == 0 {
-			if g.M.Depth() > 0 {
+			if g.nest > 0 {
 				return Id(g.pick(g.Cfg.Names))
 			}
 			if v := g.M.VisibleVars(); len(v) > 0 {
@@ -487,7 +488,7 @@ func (g *Gen) weightPick(inBlock bool) SKind {
 		w[3] = c.WExpr
 		w[5] = (c.WBind + 3) / 4
 	}
-	if g.M.Depth() >= c.MaxNest {
+	if g.nest >= c.MaxNest {
 		w[4] = 0
 	}
 	tot := 0
@@ -510,7 +511,7 @@ func (g *Gen) weightPick(inBlock bool) SKind {
 // Stmt generates one statement and executes it on the machine.
 func (g *Gen) Stmt() *Stmt {
 	r := g.R
-	inBlock := g.M.Depth() > 0
+	inBlock := g.nest > 0
 	var s *Stmt
 	switch g.weightPick(inBlock) {
 	case SVar:
@@ -576,10 +577,12 @@ func (g *Gen) Stmt() *Stmt {
 			g.Shapes["inject:badname"]++
 		}
 		g.M.OpenBlock(s)
+		g.nest++
 		n := r.Intn(g.Cfg.MaxBody + 1)
 		for i := 0; i < n && !g.M.Dead(); i++ {
 			s.Body = append(s.Body, g.Stmt())
 		}
+		g.nest--
 		g.M.CloseBlock(s)
 		g.semi(s)
 		return s
@@ -634,8 +637,20 @@ func (g *Gen) Program() *Program {
 	}
 	n := 1 + r.Intn(max(1, g.Cfg.MaxStmts))
 	for i := 0; i < n; i++ {
-		if (g.M.Dead() || g.M.Tainted()) && r.Intn(3) > 0 {
-			break // a few statements after the failing one are still generated sometimes
+		if g.M.Dead() {
+			// after the failing statement the machine's scope information is stale: only
+			// statements that need none are added (they must not be executed)
+			for k := r.Intn(3); k > 0; k-- {
+				if r.Intn(2) == 0 {
+					p.Stmts = append(p.Stmts, &Stmt{Kind: SPrint, E: Bin("+", g.literal(KInt), g.literal(KInt))})
+				} else {
+					p.Stmts = append(p.Stmts, &Stmt{Kind: SDef, Name: g.pick(g.Cfg.Types), Body: []*Stmt{{Kind: SExpr, E: Assign("after", g.literal(KAny))}}})
+				}
+			}
+			break
+		}
+		if g.M.Tainted() && r.Intn(3) > 0 {
+			break
 		}
 		p.Stmts = append(p.Stmts, g.Stmt())
 	}
